@@ -27,7 +27,21 @@ R  == INSTANCE Prng
 Hx == INSTANCE Hex
 Em == INSTANCE Emit
 
+BN == INSTANCE BigNat
+S2 == INSTANCE SM2
+B9 == INSTANCE Bn
 Corpus == ndJsonDeserialize(CorpusFile)
+(* values for INTEGER nodes: the places where range tests and rare branches sit - absolute boundaries of the two curves, and  *)
+(* boundaries RELATIVE to the digest that accompanies a signature artefact (r = e + t mod n makes the abscissa t small)       *)
+IntContent(v) == LET m == BN!Norm(v) IN IF m = <<>> THEN <<0>> ELSE IF m[1] >= 128 THEN <<0>> \o m ELSE m
+AbsInts == {<<>>, <<1>>, <<2>>, <<127>>, <<128>>, <<255>>, S2!N, BN!Sub(S2!N, <<1>>), BN!Add(S2!N, <<1>>), S2!P, BN!Sub(S2!P, <<1>>),
+            BN!Sub(S2!P, S2!N), BN!Sub(BN!Sub(S2!P, S2!N), <<1>>), B9!N, BN!Sub(B9!N, <<1>>), BN!Add(B9!N, <<1>>), B9!P,
+            [i \in 1..32 |-> 255], <<1>> \o [i \in 1..32 |-> 0]}
+RelInts(a) == IF "hash" \in DOMAIN Corpus[a]
+              THEN LET e == BN!Norm(Hx!ToBytes(Corpus[a].hash))
+                   IN {BN!AddMod(e, BN!FromInt(t), S2!N) : t \in 0..8} \cup {BN!SubMod(e, BN!FromInt(t), S2!N) : t \in 1..3} \cup {BN!SubMod(<<>>, e, S2!N)}
+              ELSE {}
+IntVals(a) == {IntContent(v) : v \in AbsInts \cup RelInts(a)} \cup {<<255>>, <<128>> \o [i \in 1..32 |-> 0]}      \* ... and two negative ones
 Arts == {a \in ArtSet : a <= Len(Corpus)}
 Orig(a) == Hx!ToBytes(Corpus[a].hex)
 IsDer(a) == Corpus[a].der
@@ -72,6 +86,7 @@ NodeLevel(b, ns) ==
         \/ (n.cl > 0 /\ Step(M!Clear(b, ns, i), Desc("clear", n.off, i, c)))
         \/ (n.cons /\ Step(M!Indef(b, ns, i), Desc("indef", n.off, i, c)))
         \/ \E k \in M!ResizeTo(n) : Step(M!Resize(b, ns, i, k), Desc("resize", n.off, k, c))
+        \/ (b[n.off + 1] = 2 /\ n.cl <= 33 /\ \E v \in IntVals(art) : Step(M!SetValue(b, ns, i, v), Desc("setint", n.off, Len(v), c)))
 
 (* the unmutated artefact itself (vacuity guard of the replayer: its primary entry points must accept it) *)
 Valid == /\ nmut = 0
